@@ -132,3 +132,196 @@ def candidates(rules, tier='quick'):
                 for suf in ('', non):
                     yield {'rule': ri, 'prefix': '', 'pump': pump, 'reps': big // len(pump), 'suffix': suf}
                 yield {'rule': ri, 'prefix': al[0], 'pump': pump, 'reps': big // len(pump), 'suffix': non}
+
+
+# ---- directed candidates: per loop of a rule, the prefix that reaches it and pumps over the minterms of its body --------------------
+
+import unicodedata
+
+
+def _universe():
+    """characters the minterm computation distinguishes: Latin blocks completely, plus a few members of every Unicode
+    general category beyond them (non-ASCII digits, letters of both cases, spaces, marks, symbols, astral characters)"""
+    first = 'a1 _' + ''.join(chr(i) for i in range(33, 127))
+    out = list(dict.fromkeys(first)) + [chr(i) for i in range(0x250) if chr(i) not in first]
+    seen = {}
+    for i in list(range(0x250, 0x3100)) + list(range(0xFE00, 0x10000)) + list(range(0x1D7C0, 0x1D800)) + [0x1F600]:
+        if 0xD800 <= i <= 0xDFFF:
+            continue
+        c = chr(i)
+        cat = unicodedata.category(c)
+        if cat in ('Cn', 'Co'):
+            continue
+        k = (cat, i >= 0xFE00)
+        if seen.get(k, 0) < 3:
+            seen[k] = seen.get(k, 0) + 1
+            out.append(c)
+    return out
+
+
+_UNIVERSE = None
+_CATRX = {'CATEGORY_SPACE': r'\s', 'CATEGORY_WORD': r'\w', 'CATEGORY_DIGIT': r'\d', 'CATEGORY_NOT_SPACE': r'\S',
+          'CATEGORY_NOT_WORD': r'\W', 'CATEGORY_NOT_DIGIT': r'\D'}
+_catcache = {}
+
+
+def _in_cat(ch, cat):
+    k = (ch, cat)
+    if k not in _catcache:
+        _catcache[k] = re.match(_CATRX[cat], ch, re.UNICODE) is not None
+    return _catcache[k]
+
+
+def _variants(ch):
+    v = {ch}
+    for x in (ch.lower(), ch.upper()):
+        if len(x) == 1:
+            v.add(x)
+    return v
+
+
+def member(ch, item):
+    """does the one-character pattern element `item` (op, av) accept ch under IGNORECASE|UNICODE"""
+    op, av = str(item[0]), item[1]
+    if op == 'LITERAL':
+        return any(ord(x) == av for x in _variants(ch)) or chr(av).lower() == ch.lower()
+    if op == 'NOT_LITERAL':
+        return not member(ch, ('LITERAL', av))
+    if op == 'ANY':
+        return ch != '\n'
+    if op == 'IN':
+        neg = False
+        hit = False
+        for o2, a2 in av:
+            o2 = str(o2)
+            if o2 == 'NEGATE':
+                neg = True
+            elif o2 == 'LITERAL':
+                hit = hit or member(ch, ('LITERAL', a2))
+            elif o2 == 'RANGE':
+                hit = hit or any(a2[0] <= ord(x) <= a2[1] for x in _variants(ch))
+            elif o2 == 'CATEGORY':
+                hit = hit or _in_cat(ch, str(a2))
+        return hit != neg
+    return False
+
+
+def _sets_of(p, out):
+    for item in p:
+        op, av = str(item[0]), item[1]
+        if op in ('LITERAL', 'NOT_LITERAL', 'ANY', 'IN'):
+            out.append((item[0], av))
+        elif op in ('MAX_REPEAT', 'MIN_REPEAT', 'POSSESSIVE_REPEAT'):
+            _sets_of(av[2], out)
+        elif op == 'SUBPATTERN':
+            _sets_of(av[3], out)
+        elif op == 'BRANCH':
+            for b in av[1]:
+                _sets_of(b, out)
+        elif op in ('ASSERT', 'ASSERT_NOT'):
+            _sets_of(av[1], out)
+        elif op == 'ATOMIC_GROUP':
+            _sets_of(av, out)
+    return out
+
+
+def minterms(body_sets, all_sets, limit=10):
+    """one representative per class of characters that the rule's one-character elements cannot tell apart, restricted
+    to characters some element of the loop body accepts; ASCII representatives first"""
+    global _UNIVERSE
+    if _UNIVERSE is None:
+        _UNIVERSE = _universe()
+    reps = {}
+    for ch in _UNIVERSE:
+        if not any(member(ch, s) for s in body_sets):
+            continue
+        sig = tuple(member(ch, s) for s in all_sets)
+        if sig not in reps:
+            reps[sig] = ch
+    # classes accepted by several body elements first: they are where two ways of matching the same text can arise
+    order = sorted(reps.items(), key=lambda kv: -sum(1 for s in body_sets if member(kv[1], s)))
+    return [ch for _, ch in order][:limit]
+
+
+def _witness_seq(p):
+    """witness of a parsed sequence (see witness)"""
+    out = []
+    for op, av in p:
+        op = str(op)
+        if op == 'LITERAL':
+            out.append(chr(av))
+        elif op == 'NOT_LITERAL':
+            out.append('a' if chr(av) != 'a' else 'b')
+        elif op == 'IN':
+            c = next((ch for ch in 'a1_ $-' + ''.join(chr(i) for i in range(32, 0x250)) if member(ch, ('IN', av))), 'a')
+            out.append(c)
+        elif op in ('MAX_REPEAT', 'MIN_REPEAT', 'POSSESSIVE_REPEAT'):
+            out.append(_witness_seq(av[2]) * max(1, min(av[0], 3)))
+        elif op == 'SUBPATTERN':
+            out.append(_witness_seq(av[3]))
+        elif op == 'BRANCH':
+            out.append(_witness_seq(av[1][0]))
+        elif op == 'ANY':
+            out.append('a')
+        elif op == 'GROUPREF':
+            out.append('$$')
+    return ''.join(out)
+
+
+def loop_sites(rx):
+    """-> [(prefix, body)] for every repetition of the rule that may run at least twice: prefix is a string that
+    carries a match attempt to the loop, body the parsed loop body"""
+    sites = []
+
+    def walk(p, prefix):
+        cur = prefix
+        for op, av in p:
+            ops = str(op)
+            if ops in ('MAX_REPEAT', 'MIN_REPEAT', 'POSSESSIVE_REPEAT'):
+                lo, hi, body = av
+                if hi is sp.MAXREPEAT or int(hi) >= 2:
+                    sites.append((cur, body))
+                walk(body, cur)
+            elif ops == 'SUBPATTERN':
+                walk(av[3], cur)
+            elif ops == 'BRANCH':
+                for b in av[1]:
+                    walk(b, cur)
+            elif ops == 'ATOMIC_GROUP':
+                walk(av, cur)
+            cur += _witness_seq([(op, av)])
+    try:
+        walk(sp.parse(rx, re.IGNORECASE | re.UNICODE), '')
+    except Exception:
+        return []
+    return sites
+
+
+def directed(rules, tier='quick'):
+    """yields {rule, prefix, pump, reps, suffix}: for each loop site pumps of length <= 3 (quick: alphabets above 6
+    symbols <= 2) over the minterm representatives of the loop body, behind the prefix that reaches the loop"""
+    maxlen = 3 if tier == 'quick' else 4
+    for ri, (rx, _) in enumerate(rules):
+        try:
+            parsed = sp.parse(rx, re.IGNORECASE | re.UNICODE)
+        except Exception:
+            continue
+        all_sets = _sets_of(parsed, [])
+        seen = set()
+        for prefix, body in loop_sites(rx):
+            al = minterms(_sets_of(body, []), all_sets, limit=8 if tier == 'quick' else 12)
+            if not al:
+                continue
+            non = next(c for c in ['\x01', '~', 'é', '\x02'] if c not in al)
+            for k in range(1, maxlen + 1):
+                syms = al if k <= 2 else al[:6 if tier == 'quick' else 8]
+                for p in itertools.product(syms, repeat=k):
+                    pump = ''.join(p)
+                    for suf in ('', non):
+                        key = (prefix, pump, suf)
+                        if key in seen:
+                            continue
+                        seen.add(key)
+                        yield {'rule': ri, 'prefix': prefix, 'pump': pump, 'reps': max(2, 60 // len(pump)), 'suffix': suf}
+                    if k == 1:
+                        yield {'rule': ri, 'prefix': prefix, 'pump': pump, 'reps': 3000 if tier == 'quick' else 30000, 'suffix': non}
